@@ -1,5 +1,7 @@
 CONSTANTS
   F32 = FALSE
+  CHECK_NONNEG = FALSE
 SPECIFICATION Spec
+INVARIANT NotDone
 POSTCONDITION TraceAccepted
 CHECK_DEADLOCK FALSE
